@@ -91,6 +91,18 @@ def _exc_site(tb):
     return site
 
 
+def _reload_emit_file(mod, absent):
+    import importlib
+    import importlib.util
+    real = importlib.util.find_spec
+    if absent:
+        importlib.util.find_spec = lambda name, package=None: None if name == "black" else real(name, package)
+    try:
+        importlib.reload(mod)
+    finally:
+        importlib.util.find_spec = real
+
+
 def invoke(world, op, faults=None, trace=False, budget=None, monitor=False, track=False, tail=0,
            site_at=None, black=True, call=None, wall_s=30, with_exits=False, cwd_on_path=False, bytecode=False):
     """Run one operation.
@@ -129,12 +141,12 @@ def invoke(world, op, faults=None, trace=False, budget=None, monitor=False, trac
     exmod_utils = sys.modules.get("cdd.compound.exmod_utils")
     old_stream = getattr(exmod_utils, "EXMOD_OUT_STREAM", None) if exmod_utils else None
     emit_file = sys.modules.get("cdd.shared.emit.file")
-    old_black = getattr(emit_file, "black", None) if emit_file else None
-    if emit_file is not None and not black:
-        emit_file.black = type("black", tuple(), {
-            "format_str": lambda src_contents, mode: src_contents,
-            "Mode": (lambda target_versions, line_length, is_pyi, string_normalization: None),
-        })
+    if not black:
+        # dep_absent(black): cdd's OWN fallback is used, not a copy of it - the module is re-executed with
+        # find_spec("black") answering None, and re-executed again afterwards with the real answer
+        if emit_file is None:
+            import cdd.shared.emit.file as emit_file
+        _reload_emit_file(emit_file, absent=True)
     os.chdir(world.root)
     old_dwb = sys.dont_write_bytecode
     if bytecode:
@@ -202,8 +214,8 @@ def invoke(world, op, faults=None, trace=False, budget=None, monitor=False, trac
             os.chdir("/")
         if exmod_utils is not None:
             exmod_utils.EXMOD_OUT_STREAM = old_stream
-        if emit_file is not None and not black:
-            emit_file.black = old_black
+        if not black:
+            _reload_emit_file(emit_file, absent=False)
     out.events = st.events
     out.stdout = sink_out.getvalue()
     out.stderr = sink_err.getvalue()
